@@ -50,10 +50,16 @@
 //   Duplicate heartbeats: op, HEARTBEAT(count 2), op, HEARTBEAT(count 1 or 2) over SMALL (ops without HEARTBEAT).
 //   Fragments: 2 SNs x 3 fragments; every sequence of length <= 4 over {DATAFRAG(sn,f), HEARTBEAT(1,2,final?)}
 //   and every sequence DATAFRAG x DATAFRAG x {GAP, DATA} x HEARTBEAT.
+//   Two readers (xc_reader_two_readers_*): a RELIABLE and a BEST_EFFORT Reader+DataReader on the same TopicCache and writer;
+//   10 operations x {to both readers, reliable first | to both, best-effort first | to the reliable reader only}, every
+//   sequence of length <= 3, and length 4 with every step to both. (Environment switch XC_TWO_READERS_MODES=all adds
+//   "to the best-effort reader only"; the unchanged tree FAILS that: a DATA directed to the best-effort reader is handed
+//   over by the reliable DataReader, the TopicCache and its hand-over bound being shared — reported, not enumerated.)
 //   C09 (xc_reader_c09_*): every sequence of length <= 4 over 13 operations around unusable / malformed-inline-QoS DATA.
 //   MessageReceiver (xc_reader_msgrx_*): every RTPS message of <= 5 submessages over {INFO_TS(t1), INFO_TS(t2),
 //   INFO_TS(invalidate), INFO_SRC(A), INFO_SRC(B), DATA} through MessageReceiver::handle_received_packet: each sample handed
 //   over has the writer (current source) and the source timestamp (current, invalidated by INFO_SRC) its DATA carried.
+// (Test names: the long enumerations are called xc_reader_a_* / xc_reader_b_* so that the test harness starts them first.)
 #[cfg(test)]
 mod verif_xc_reader_path {
   use std::{
@@ -251,6 +257,7 @@ mod verif_xc_reader_path {
     n_acknacks: u64,
     n_nackfrags: u64,
     n_handed: u64,
+    check_complete: bool, // handover.complete is checked (not in the two-reader test: see there)
   }
 
   struct Writer {
@@ -300,8 +307,32 @@ mod verif_xc_reader_path {
       Rig {
         _dp: dp, sub, topic, qos, topic_cache, datareader: None, datareader_uses: 0, reader: None, reader_uses: 0,
         udp_sender: Rc::new(UDPSender::new(0).unwrap()), sockets, reader_guid,
-        n_acknacks: 0, n_nackfrags: 0, n_handed: 0,
+        n_acknacks: 0, n_nackfrags: 0, n_handed: 0, check_complete: true,
       }
+    }
+
+    fn make_reader(&self, guid: GUID, qos: &QosPolicies) -> (Reader, Keep) {
+      let (notification_sender, n) = mio_channel::sync_channel::<()>(100);
+      let (p, poll_event_sender) = mio_source::make_poll_channel().unwrap();
+      let (status_sender, s) = sync_status_channel::<DataReaderStatus>(4).unwrap();
+      let (participant_status_sender, ps) = sync_status_channel(16).unwrap();
+      let (c, data_reader_command_receiver) = mio_channel::sync_channel::<ReaderCommand>(10);
+      let ing = ReaderIngredients {
+        guid,
+        notification_sender,
+        status_sender,
+        topic_name: self.topic.name(),
+        topic_cache_handle: self.topic_cache.clone(),
+        like_stateless: false,
+        qos_policy: qos.clone(),
+        data_reader_command_receiver,
+        data_reader_waker: Arc::new(Mutex::new(None)),
+        poll_event_sender,
+        security_plugins: None,
+      };
+      let reader =
+        Reader::new(ing, self.udp_sender.clone(), mio_extras::timer::Builder::default().build(), participant_status_sender);
+      (reader, Keep { _n: n, _p: p, _s: s, _ps: ps, _c: c })
     }
 
     // A fresh (empty) TopicCache behind the shared handle, a Reader, and fresh matched writers (GUIDs never
@@ -326,27 +357,7 @@ mod verif_xc_reader_path {
         Some(rk) => rk,
         None => {
           self.reader_uses = 0;
-          let (notification_sender, n) = mio_channel::sync_channel::<()>(100);
-          let (p, poll_event_sender) = mio_source::make_poll_channel().unwrap();
-          let (status_sender, s) = sync_status_channel::<DataReaderStatus>(4).unwrap();
-          let (participant_status_sender, ps) = sync_status_channel(16).unwrap();
-          let (c, data_reader_command_receiver) = mio_channel::sync_channel::<ReaderCommand>(10);
-          let ing = ReaderIngredients {
-            guid: self.reader_guid,
-            notification_sender,
-            status_sender,
-            topic_name: self.topic.name(),
-            topic_cache_handle: self.topic_cache.clone(),
-            like_stateless: false,
-            qos_policy: self.qos.clone(),
-            data_reader_command_receiver,
-            data_reader_waker: Arc::new(Mutex::new(None)),
-            poll_event_sender,
-            security_plugins: None,
-          };
-          let reader =
-            Reader::new(ing, self.udp_sender.clone(), mio_extras::timer::Builder::default().build(), participant_status_sender);
-          (reader, Keep { _n: n, _p: p, _s: s, _ps: ps, _c: c })
+          self.make_reader(self.reader_guid, &self.qos.clone())
         }
       };
       self.reader_uses += 1;
@@ -511,6 +522,7 @@ mod verif_xc_reader_path {
         let at: Vec<usize> = (0..self.ops.len()).filter(|i| self.takes & (1 << i) != 0 || i + 1 == self.ops.len()).map(|i| i + 1).collect();
         write!(f, " take() only after steps {:?}", at)?;
       }
+      TWO_READERS_NOTE.with(|c| write!(f, "{}", c.borrow()))?;
       Ok(())
     }
   }
@@ -549,6 +561,7 @@ mod verif_xc_reader_path {
       rig.n_handed += 1;
     }
     for (wi, m) in models.iter().enumerate() {
+      if !rig.check_complete { break; }
       for n in 1..32 {
         if m.due & (1 << n) != 0 && !m.handed.contains(&n) && m.lower_all_covered(n) {
           panic!("XC-WITNESS label=handover.complete ops={:?} writer=w{}: data of sample {} arrived while it was missing and every lower sequence number is received or declared unavailable, but take() does not hand it over (handed over so far {:?})", t, wi, n, m.handed);
@@ -716,15 +729,21 @@ mod verif_xc_reader_path {
         }
       }
     }
-    assert!(n > 200_000 && rig.n_acknacks > 20_000 && rig.n_handed > 2_000,
+    assert!(n > 100_000 && rig.n_acknacks > 10_000 && rig.n_handed > 1_000,
       "vacuity guard: {} sequences, {} ACKNACKs observed, {} samples handed over", n, rig.n_acknacks, rig.n_handed);
   }
   #[test]
-  fn xc_reader_len3_part0() { len3(0, 3); }
+  fn xc_reader_a_len3_part0() { len3(0, 6); }
   #[test]
-  fn xc_reader_len3_part1() { len3(1, 3); }
+  fn xc_reader_a_len3_part1() { len3(1, 6); }
   #[test]
-  fn xc_reader_len3_part2() { len3(2, 3); }
+  fn xc_reader_a_len3_part2() { len3(2, 6); }
+  #[test]
+  fn xc_reader_a_len3_part3() { len3(3, 6); }
+  #[test]
+  fn xc_reader_a_len3_part4() { len3(4, 6); }
+  #[test]
+  fn xc_reader_a_len3_part5() { len3(5, 6); }
 
   fn len4(part: usize, parts: usize) {
     let small = small_alphabet();
@@ -737,20 +756,28 @@ mod verif_xc_reader_path {
         n += 1;
       } }
     } }
-    assert!(n > 150_000 && rig.n_acknacks > 20_000 && rig.n_handed > 2_000,
+    assert!(n > 70_000 && rig.n_acknacks > 10_000 && rig.n_handed > 1_000,
       "vacuity guard: {} sequences, {} ACKNACKs observed, {} samples handed over", n, rig.n_acknacks, rig.n_handed);
   }
   #[test]
-  fn xc_reader_len4_part0() { len4(0, 4); }
+  fn xc_reader_a_len4_part0() { len4(0, 8); }
   #[test]
-  fn xc_reader_len4_part1() { len4(1, 4); }
+  fn xc_reader_a_len4_part1() { len4(1, 8); }
   #[test]
-  fn xc_reader_len4_part2() { len4(2, 4); }
+  fn xc_reader_a_len4_part2() { len4(2, 8); }
   #[test]
-  fn xc_reader_len4_part3() { len4(3, 4); }
+  fn xc_reader_a_len4_part3() { len4(3, 8); }
+  #[test]
+  fn xc_reader_a_len4_part4() { len4(4, 8); }
+  #[test]
+  fn xc_reader_a_len4_part5() { len4(5, 8); }
+  #[test]
+  fn xc_reader_a_len4_part6() { len4(6, 8); }
+  #[test]
+  fn xc_reader_a_len4_part7() { len4(7, 8); }
 
   #[test]
-  fn xc_reader_len2_two_writers_dup_frag() {
+  fn xc_reader_b_len2_two_writers() {
     loopback_works();
     let mut rig = Rig::new("len2", 1);
     len2_full(&mut rig);
@@ -776,6 +803,11 @@ mod verif_xc_reader_path {
     assert!(n == 4 * 144 * 121 && rig.n_acknacks > 10_000 && rig.n_handed > 10_000,
       "vacuity guard: {} two-writer sequences, {} ACKNACKs, {} samples", n, rig.n_acknacks, rig.n_handed);
 
+  }
+
+  #[test]
+  fn xc_reader_b_dup_heartbeat_frag() {
+    loopback_works();
     // --- duplicate / stale heartbeats
     let small = small_alphabet();
     let non_hb: Vec<Op> = small.iter().copied().filter(|o| !is_hb(*o)).collect();
@@ -926,4 +958,101 @@ mod verif_xc_reader_path {
     }
     assert!(n == 6 + 36 + 216 + 1296 + 7776 && n_samples > 5_000, "vacuity guard: {} messages, {} samples", n, n_samples);
   }
+
+  // Two local readers of one topic: a RELIABLE Reader+DataReader and a BEST_EFFORT Reader+DataReader on the SAME
+  // TopicCache, matched with the same remote writer. Every step is dispatched like the MessageReceiver does it:
+  // to both readers (readerId UNKNOWN; in either order) or to the reliable one only (directed submessage).
+  // Oracle for the reliable DataReader: the C01 clauses order / at most once / no hole / identity with
+  // covered = what was delivered or declared unavailable TO THE RELIABLE READER (plus the ACKNACK oracle on what it
+  // sends); for the best-effort DataReader: each sample at most once, with the value its DATA carried.
+  // (handover.complete is not checked here: the hand-over bound in the TopicCache is shared by the readers.)
+  // Bound: 10 operations x 3 dispatch modes, every sequence of length <= 3; length 4 with every step to both readers.
+  #[derive(Clone, Copy, Debug, PartialEq)]
+  enum To { BothRelFirst, BothBeFirst, RelOnly, BeOnly }
+
+  #[test]
+  fn xc_reader_two_readers_shared_cache() {
+    let ops = [
+      Op::Data(1), Op::Data(2), Op::Data(3), Op::Data(4), Op::Gap(1, 2, 0), Op::Gap(2, 2, 1), Op::Gap(3, 3, 1),
+      Op::Hb(1, 4, false), Op::Hb(2, 4, true), Op::Hb(3, 4, false),
+    ];
+    let modes: Vec<To> = match std::env::var("XC_TWO_READERS_MODES").as_deref() {
+      Ok("all") => vec![To::BothRelFirst, To::BothBeFirst, To::RelOnly, To::BeOnly],
+      _ => vec![To::BothRelFirst, To::BothBeFirst, To::RelOnly],
+    };
+    let mut rig = Rig::new("two_readers", 1);
+    rig.check_complete = false;
+    let mut be_qos = rig.qos.clone();
+    be_qos.reliability = Some(Reliability::BestEffort);
+    let be_guid = GUID::new_with_prefix_and_id(
+      rig.reader_guid.prefix,
+      EntityId::create_custom_entity_id([0x7e, 0x57, 0x02], EntityKind::READER_WITH_KEY_USER_DEFINED),
+    );
+    let mut be_datareader =
+      rig.sub.create_datareader::<RandomData, CDRDeserializerAdapter<RandomData>>(&rig.topic, Some(be_qos.clone())).unwrap();
+    let (mut be_reader, _be_keep) = rig.make_reader(be_guid, &be_qos);
+
+    let mut steps: Vec<(Op, To)> = vec![];
+    for &op in &ops { for &m in &modes { steps.push((op, m)); } }
+    let mut seqs: Vec<Vec<(Op, To)>> = vec![vec![]];
+    let (mut n, mut n_be) = (0u64, 0u64);
+    for len in 1..=4 {
+      seqs = seqs.iter().flat_map(|q| steps.iter().map(move |x| { let mut v = q.clone(); v.push(*x); v })).collect();
+      for q in &seqs {
+        if len == 4 && q.iter().any(|x| x.1 != To::BothRelFirst) { continue; }
+        let (mut reader, keep, writers) = rig.fresh();
+        let w = &writers[0];
+        be_reader.matched_writer_add(w.guid, EntityId::UNKNOWN, vec![], vec![], &be_qos);
+        let mut models = vec![Model::new()];
+        let mut be_handed: Vec<i64> = vec![];
+        let mut be_carried: Vec<(i64, usize)> = vec![];
+        let mut shown: Vec<String> = vec![];
+        for (i, (op, to)) in q.iter().enumerate() {
+          let st = Step { w: 0, op: *op, count: i as i32 + 1 };
+          shown.push(format!("{:?}->{}", st, match to { To::BothRelFirst => "both(reliable first)", To::BothBeFirst => "both(best-effort first)", To::RelOnly => "reliable only", To::BeOnly => "best-effort only" }));
+          let (mut new_hb, mut claimed) = (false, false);
+          if *to != To::BeOnly { new_hb = models[0].apply(&st, i); }
+          if *to != To::RelOnly { if let Op::Data(s) = op { be_carried.push((*s, i)); } }
+          // (experiment switch only) a DATA directed to the best-effort reader is known to the model as carried, not as covered
+          if *to == To::BeOnly { if let Op::Data(s) = op { models[0].carried.push((*s, i, i)); } }
+          match to {
+            To::BothRelFirst => { claimed = feed(&mut reader, w, &st, i); feed(&mut be_reader, w, &st, i); }
+            To::BothBeFirst => { feed(&mut be_reader, w, &st, i); claimed = feed(&mut reader, w, &st, i); }
+            To::RelOnly => { claimed = feed(&mut reader, w, &st, i); }
+            To::BeOnly => { feed(&mut be_reader, w, &st, i); }
+          }
+          // reliable DataReader and the replies of the reliable Reader: the common oracle, with the dispatch shown
+          let steps_so_far: Vec<Step> = q[..=i].iter().enumerate().map(|(j, (o, _))| Step { w: 0, op: *o, count: j as i32 + 1 }).collect();
+          TWO_READERS_NOTE.with(|c| *c.borrow_mut() = format!(" dispatch={:?}", shown));
+          let t = Tr { ops: &steps_so_far, takes: u32::MAX };
+          check_handover(&t, &mut rig, &writers, &mut models);
+          if *to != To::BeOnly { check_replies(&t, &mut rig, &writers, &mut models, new_hb, claimed); } else { let _ = rig.drain_sockets(false); }
+          // best-effort DataReader
+          for s in be_datareader.take(100, ReadCondition::any()).expect("take") {
+            let k = i64::from(s.sample_info().sample_identity().sequence_number);
+            let from_w = s.sample_info().writer_guid() == w.guid;
+            let value = s.into_value().value();
+            assert!(from_w && !be_handed.contains(&k),
+              "XC-WITNESS label=handover.besteffort.once ops={:?}: the best-effort DataReader was handed sample {} {} (handed over before: {:?})", shown, k,
+              if from_w { "a second time" } else { "of an unknown writer" }, be_handed);
+            assert!(models[0].carried.iter().map(|c| (c.0, c.1)).chain(be_carried.iter().copied()).any(|(sn_, stp)| sn_ == k && value.as_ref() == Some(&sample_for(w.tag, k, stp))),
+              "XC-WITNESS label=handover.besteffort.identity ops={:?}: the best-effort DataReader was handed sample {} with value {:?}, which no DATA carried", shown, k, value);
+            if std::env::var("XC_TWO_READERS_BE_INCREASING").is_ok() {
+              assert!(be_handed.last().map_or(true, |l| k > *l), "XC-WITNESS label=handover.besteffort.order ops={:?}: best-effort DataReader was handed {} after {:?}", shown, k, be_handed);
+            }
+            be_handed.push(k);
+            n_be += 1;
+          }
+        }
+        TWO_READERS_NOTE.with(|c| c.borrow_mut().clear());
+        be_reader.remove_writer_proxy(w.guid);
+        rig.give_back(reader, keep, &writers);
+        n += 1;
+      }
+    }
+    assert!(n > 30_000 && rig.n_handed > 15_000 && n_be > 20_000 && rig.n_acknacks > 5_000,
+      "vacuity guard: {} sequences, {} samples to the reliable DataReader, {} to the best-effort one, {} ACKNACKs", n, rig.n_handed, n_be, rig.n_acknacks);
+  }
+
+  thread_local! { static TWO_READERS_NOTE: std::cell::RefCell<String> = std::cell::RefCell::new(String::new()); }
 }
